@@ -149,6 +149,26 @@ def digit_re():
 
 
 ASCII_DIGITS = z3.Range(z3.StringVal("0"), z3.StringVal("9"))
+_DECIMAL_RE = None
+
+
+def decimal_re():
+    """Characters with str.isdecimal() (Unicode category Nd, below U+30000): the digits int() accepts."""
+    global _DECIMAL_RE
+    if _DECIMAL_RE is None:
+        out = []
+        i = 0
+        while i < 0x30000:
+            if chr(i).isdecimal():
+                j = i
+                while j + 1 < 0x30000 and chr(j + 1).isdecimal():
+                    j += 1
+                out.append((i, j))
+                i = j + 1
+            else:
+                i += 1
+        _DECIMAL_RE = z3.Union(*[z3.Range(z3.StringVal(chr(a)), z3.StringVal(chr(b))) for a, b in out])
+    return _DECIMAL_RE
 
 
 def S(x):
@@ -508,6 +528,10 @@ def py_int(eng, s, node):
     valid = sfun("py_int_valid", STR, BOOL)
     eng.assumptions_used.add("int(str): exact (str.to_int) on ASCII digit strings; otherwise an uninterpreted result guarded by an uninterpreted validity predicate (ValueError when invalid); a valid literal is non-empty")
     eng.assume(z3.Implies(valid(z), z3.Length(z) > 0))
+    # what is known of validity beyond ASCII: short strings of decimal digits (category Nd) are accepted, and a string of Digit-property
+    # characters that contains a non-decimal one (a superscript, a circled digit) is rejected
+    eng.assume(z3.Implies(z3.And(z3.InRe(z, z3.Plus(decimal_re())), z3.Length(z) <= 4300), valid(z)))
+    eng.assume(z3.Implies(z3.And(z3.InRe(z, z3.Plus(digit_re())), z3.Not(z3.InRe(z, z3.Plus(decimal_re())))), z3.Not(valid(z))))
     if not eng.branch(valid(z)):
         eng.raise_("ValueError", site=node.lineno)
     return VInt(sfun("py_int", STR, INT)(z))
@@ -687,6 +711,26 @@ def str_method(eng, world, s, m, args, kwargs, node):
             rf = sfun("py_rstrip_ch%02x" % ord(ch), STR, STR)
             eng.assume(z3.If(z3.SuffixOf(z3.StringVal(ch), zz), r == rf(z3.SubString(zz, 0, z3.Length(zz) - 1)), r == zz))
         return VStr(r)
+    if m in ("strip", "lstrip") and len(args) == 1 and isinstance(args[0], VStr) and is_conc(args[0].z) and len(args[0].z) == 1 and not s.isbytes and not is_conc(z):
+        # s.strip(c) / s.lstrip(c) for one concrete character: s = c* + r + c* (strip) or c* + r (lstrip), r not starting (nor, for strip, ending) in c
+        ch = args[0].z
+        zz = S(z)
+        r = sfun("py_%s_ch%02x" % (m, ord(ch)), STR, STR)(zz)
+        if eng.pc.need_axioms((m + "ch", ch, zz.sexpr())):
+            lead = sfun("py_%s_lead%02x" % (m, ord(ch)), STR, STR)(zz)
+            cs = z3.Star(z3.Re(z3.StringVal(ch)))
+            eng.assume(z3.InRe(lead, cs))
+            eng.assume(z3.Not(z3.PrefixOf(z3.StringVal(ch), r)))
+            if m == "strip":
+                trail = sfun("py_strip_trail%02x" % ord(ch), STR, STR)(zz)
+                eng.assume(zz == z3.Concat(lead, r, trail))
+                eng.assume(z3.InRe(trail, cs))
+                eng.assume(z3.Not(z3.SuffixOf(z3.StringVal(ch), r)))
+                eng.assume(z3.Implies(z3.Length(r) == 0, z3.Length(trail) == 0))
+            else:
+                eng.assume(zz == z3.Concat(lead, r))
+            eng.assume(z3.Contains(zz, r))
+        return VStr(r)
     if m in ("strip", "lstrip", "rstrip") and not args:
         return _strip_model(eng, s, m)
     if m == "split":
@@ -746,6 +790,8 @@ def str_method(eng, world, s, m, args, kwargs, node):
         eng.assume(z3.Implies(simple, p))
         eng.assume(z3.Implies(p, z3.Length(S(z)) > 0))
         eng.assume(z3.Implies(z3.And(p, ascii_), simple))
+        # beyond ASCII: exactly the non-empty strings of characters with the Digit property (superscripts, circled digits ... included)
+        eng.assume(p == z3.InRe(S(z), z3.Plus(digit_re())))
         return VBool(p)
     if m == "encode":
         return str_encode(eng, s, args, kwargs, node)
@@ -803,6 +849,19 @@ def str_method(eng, world, s, m, args, kwargs, node):
         eng.assume((r == 0) == z3.Not(z3.Contains(S(z), S(args[0].z))))
         return VInt(r)
     if m == "replace" and len(args) == 2:
+        a_, b_ = eng.force(args[0]), eng.force(args[1])
+        if isinstance(a_, VStr) and isinstance(b_, VStr) and is_conc(a_.z) and is_conc(b_.z) and len(a_.z) == 1 and len(b_.z) == 1 and a_.z != b_.z and not s.isbytes:
+            # one character replaced by another everywhere: a length-preserving map, the identity on strings without the character,
+            # whose result does not contain it (a sound but incomplete characterisation: enough to refute, rarely enough to prove)
+            zz = S(z)
+            r = sfun("py_replace_%02x_%02x" % (ord(a_.z), ord(b_.z)), STR, STR)(zz)
+            if eng.pc.need_axioms(("replch", a_.z, b_.z, zz.sexpr())):
+                eng.assume(z3.Length(r) == z3.Length(zz))
+                eng.assume(z3.Not(z3.Contains(r, z3.StringVal(a_.z))))
+                eng.assume(z3.Implies(z3.Not(z3.Contains(zz, z3.StringVal(a_.z))), r == zz))
+                eng.assume(z3.Implies(z3.Contains(zz, z3.StringVal(a_.z)), z3.Contains(r, z3.StringVal(b_.z))))
+            eng.assumptions_used.add("str.replace(c, d) for single characters: length-preserving, identity without c, result free of c (incomplete characterisation)")
+            return VStr(r)
         raise OutOfSubset("str.replace on symbolic string")
     raise OutOfSubset("str method %s" % m)
 
@@ -1222,7 +1281,20 @@ def rfile_readline(eng, world, r, args, kwargs, node):
     line = z3.SubString(c, p, k)
     nl = z3.StringVal("\n")
     eng.assume(z3.Implies(k > 0, z3.Not(z3.Contains(z3.SubString(line, 0, k - 1), nl))))
-    eng.assume(z3.Implies(z3.And(k > 0, p + k < L), z3.SuffixOf(nl, line)))
+    limit = None
+    if args or kwargs:
+        # readline(size): at most size bytes; the line may then stop before its terminator
+        a = eng.force(args[0] if args else list(kwargs.values())[0])
+        if a is not NONE:
+            if not isinstance(a, VInt):
+                raise OutOfSubset("readline(size) with a non-integer size")
+            limit = zint(a.z)
+            eng.assume(z3.Implies(limit >= 0, k <= limit))
+    if limit is None:
+        eng.assume(z3.Implies(z3.And(k > 0, p + k < L), z3.SuffixOf(nl, line)))
+    else:
+        eng.assume(z3.Implies(z3.And(k > 0, p + k < L, z3.Or(limit < 0, k < limit)), z3.SuffixOf(nl, line)))
+        eng.assume(z3.Implies(z3.And(limit > 0, p < L), k > 0))
     r.fields["pos"] = VInt(p + k)
     lines = r.fields.get("nlines")
     if lines is not None:
